@@ -383,6 +383,18 @@ def run_check(prop, P, tier, seed):
         for lab in pr.get("must_reach", ["end"]):
             if (r.get("reach") or {}).get(lab, 0) == 0 and r["status"] == "ok":
                 inconclusive.append("vacuity: label %r never reached in %s %s" % (lab, r["harness"], r.get("params")))
+    # ---- native validation of the reference models against the real reference implementations
+    validated_refs = None
+    if P.get("validate_tests") and (tier == "thorough" or os.environ.get("VERIF_VALIDATE")):
+        vdir = os.path.join(VERIF, "validate")
+        try:
+            shutil.copy(os.path.join(REPO, "go.sum"), os.path.join(vdir, "go.sum"))
+            r = subprocess.run(["go", "test", "-count=1", "-run", P["validate_tests"], "./..."], cwd=vdir, env=GOENV, capture_output=True, text=True, timeout=1200)
+            validated_refs = "ok" if r.returncode == 0 else "FAILED: " + (r.stdout + r.stderr)[-600:].replace("\n", " | ")
+        except Exception as e:  # noqa
+            validated_refs = "FAILED: %s" % e
+        if validated_refs != "ok":
+            inconclusive.append("reference-model validation against boxo failed: " + validated_refs)
     # ---- evidence
     tot = lambda k: sum((r.get(k) or 0) for r in results)
     funcs_repo = sorted({f for r in results for f in (r.get("functions_repo") or [])})
@@ -413,6 +425,7 @@ def run_check(prop, P, tier, seed):
                              "reach": r.get("reach"), "assume_pruned": r.get("assume_pruned"), "wall_s": round(r["wall_s"], 2)} for r in results],
             "inconclusive": inconclusive, "engine_mismatch": engine_mismatch + wv_mismatch,
             "known_findings_hit": known_lines,
+            "reference_models_validated_natively": validated_refs,
         },
         "assumptions": P.get("assumptions", []),
         "wall_s": round(time.time() - t0, 2),
